@@ -14,7 +14,7 @@ import math
 from fractions import Fraction
 
 from .. import gen
-from ..common import cnat, cq, cz, cbool, clist, coq_eval
+from ..common import cnat, cq, cz, cbool, clist, safe_coq_eval
 from ..impl import Impl
 
 GEN_FILES = ['ParisSrc.v']     # how the source computes the height of a merge, C type of the similarities
@@ -345,6 +345,13 @@ def impl_frac_rows(rows):
 
 
 # ---------------------------------------------------------------------------------------------------------------
+def model_vals(ctx, tag, exprs, **kw):
+    """Model values, one per expression; a list of None when the model no longer evaluates (recorded in ctx.proof_broken by
+    safe_coq_eval): the model comparison of each case is then skipped, the validity oracles on the implementation's output stay."""
+    vals = safe_coq_eval(ctx, tag, IMPORTS, exprs, prelude=PRELUDE, **kw)
+    return vals if vals is not None else [None] * len(exprs)
+
+
 def run(ctx, scratch):
     rng = ctx.rng
     quick = ctx.tier == 'quick'
@@ -567,7 +574,7 @@ def run(ctx, scratch):
             lv = list(range(n))
             rng.shuffle(lv)
             trees.append(rtree(rng, lv))
-        vals = coq_eval('c07gd', IMPORTS, ['cvg (get_dendrogram %s)' % ctree(t) for t in trees], prelude=PRELUDE)
+        vals = model_vals(ctx, 'c07gd', ['cvg (get_dendrogram %s)' % ctree(t) for t in trees])
         for t, v in zip(trees, vals):
             r = impl.call('c07', 'tree_dendrogram', dict(tree=t))
             ctx.traces += 1
@@ -576,7 +583,7 @@ def run(ctx, scratch):
             got = None
             if 'ok' in r:
                 got = ('Ok', ([(int(x[0]), int(x[1]), (int(x[2]), 1), int(x[3])) for x in r['ok']['rows']], r['ok']['index']))
-            if got != v:
+            if v is not None and got != v:
                 ctx.violation('get_dendrogram', 'implementation differs from the model', case=dict(tree=t), expected=v,
                               observed=r, kind='model_mismatch')
             elif 'ok' in r:
@@ -591,17 +598,19 @@ def run(ctx, scratch):
         for _ in range(200 if quick else 2000):
             n = rng.randint(2, nmax)
             dends.append((n, rdend(rng, n, rng.choice(['monotone', 'monotone', 'distinct', 'sorted', 'arbitrary']))))
-        vals = coq_eval('c07ro', IMPORTS, ['cvr (reorder_dendrogram %s)' % cdend(D) for (_, D) in dends], prelude=PRELUDE)
+        vals = model_vals(ctx, 'c07ro', ['cvr (reorder_dendrogram %s)' % cdend(D) for (_, D) in dends])
         for (n, D), v in zip(dends, vals):
             r = impl.call('c07', 'reorder', dict(rows=[[a, b, float(h), s] for a, b, h, s in D]))
             ctx.traces += 1
             ctx.count('corr:reorder_dendrogram', ('ro', D), True)
             got = ('Ok', [(int(x[0]), int(x[1]), (Fraction(x[2]).numerator, Fraction(x[2]).denominator), int(x[3]))
                           for x in r['ok']['rows']]) if 'ok' in r else None
-            if got != v:
+            if v is not None and got != v:
                 ctx.violation('reorder_dendrogram', 'implementation differs from the model', case=dict(rows=D), expected=v,
                               observed=r, kind='model_mismatch')
                 continue
+            if 'ok' not in r:
+                continue       # (model dead and no output to judge)
             # property side (theorem reorder_valid): valid + no parent below a child  =>  output valid and sorted
             fl = [[a, b, float(h), s] for a, b, h, s in D]
             if inversion(fl, n) == 0:
@@ -617,8 +626,7 @@ def run(ctx, scratch):
         for _ in range(200 if quick else 2000):
             n1, n2 = rng.randint(1, 6 if quick else 14), rng.randint(1, 6 if quick else 14)
             sp.append((n1, n2, rdend(rng, n1 + n2, rng.choice(['monotone', 'sorted', 'distinct']))))
-        vals = coq_eval('c07sp', IMPORTS, ['cvs (split_dendrogram %s %d %d)' % (cdend(D), n1, n2) for (n1, n2, D) in sp],
-                        prelude=PRELUDE)
+        vals = model_vals(ctx, 'c07sp', ['cvs (split_dendrogram %s %d %d)' % (cdend(D), n1, n2) for (n1, n2, D) in sp])
         for (n1, n2, D), v in zip(sp, vals):
             r = impl.call('c07', 'split', dict(rows=[[a, b, float(h), s] for a, b, h, s in D], shape=[n1, n2]))
             ctx.traces += 1
@@ -628,7 +636,7 @@ def run(ctx, scratch):
                 return [(int(x[0]), int(x[1]), (Fraction(x[2]).numerator, Fraction(x[2]).denominator), int(x[3]))
                         for x in info['rows']]
             got = ('Ok', (conv(r['ok']['row']), conv(r['ok']['col']))) if 'ok' in r else None
-            if got != v:
+            if v is not None and got != v:
                 ctx.violation('split_dendrogram', 'implementation differs from the model', case=dict(rows=D, shape=[n1, n2]),
                               expected=v, observed=r, kind='model_mismatch')
 
@@ -665,7 +673,7 @@ def run(ctx, scratch):
                 for ro in (False, True):
                     exprs.append('cvp (paris_src exact %s %s %s %d %s)' % (cq(HINF), cbool(degree), cbool(ro), n, centries(coo)))
                     meta.append((fam, n, coo, degree, ro))
-        vals = coq_eval('c07px', IMPORTS, exprs, prelude=PRELUDE, shard=60)
+        vals = model_vals(ctx, 'c07px', exprs, shard=60)
         compared = dropped = 0
         for (fam, n, coo, degree, ro), v in zip(meta, vals):
             opts = dict(weights='degree' if degree else 'uniform', reorder=ro)
@@ -673,6 +681,8 @@ def run(ctx, scratch):
             ctx.traces += 1
             ctx.count('corr:Paris_exact:' + fam, ('px', n, coo, degree, ro), True)
             case = dict(algo='Paris', opts=opts, m=spec(n, n, coo), family=fam)
+            if v is None:
+                continue     # model dead: nothing to compare with (validity of these fits is judged by the oracle part)
             if v[0] != 'Ok' or 'ok' not in r:
                 ctx.violation('Paris', 'model or implementation failed', case=case, expected=v, observed=r, kind='model_mismatch')
                 continue
@@ -707,12 +717,14 @@ def run(ctx, scratch):
             ro = rng.random() < 0.5 or fam.startswith('corpus')
             exprs.append('cvp (paris_src src_rounding %s %s %s %d %s)' % (cq(HINF), cbool(degree or fam.startswith('corpus')), cbool(ro), n, centries(coo)))
             meta.append((fam, n, coo, degree or fam.startswith('corpus'), ro))
-        vals = coq_eval('c07pf', IMPORTS, exprs, prelude=PRELUDE, shard=8)
+        vals = model_vals(ctx, 'c07pf', exprs, shard=8)
         for (fam, n, coo, degree, ro), v in zip(meta, vals):
             opts = dict(weights='degree' if degree else 'uniform', reorder=ro)
             r = impl.call('c07', 'fit', dict(algo='Paris', opts=opts, m=spec(n, n, coo)))
             ctx.traces += 1
             ctx.count('corr:Paris_ieee:' + fam, ('pf', n, coo, degree, ro), True)
+            if v is None:
+                continue
             exp = frac_rows(v[1][0]) if v[0] == 'Ok' else v
             got = impl_frac_rows(r['ok']['dendrogram']['rows']) if 'ok' in r else r
             if exp != got:
@@ -720,18 +732,20 @@ def run(ctx, scratch):
                               case=dict(algo='Paris', opts=opts, m=spec(n, n, coo), family=fam),
                               expected=[[a, b, float(h), s] for a, b, h, s in exp] if isinstance(exp, list) else exp,
                               observed=r, kind='model_mismatch', model='ieee')
-        if meta:
+        if meta and vals[0] is not None:
             ctx.sample(dict(kind='Paris_ieee', case=meta[0][:3], model=[[a, b, float(h), s] for a, b, h, s in frac_rows(vals[0][1][0])]))
 
         # ---- bipartite: fit on the block adjacency + _split_vars (IEEE model, exact comparison)
         pb = [b for b in bips if b[0] + b[1] <= 7][: (25 if quick else 150)] if paris_corr else []
         exprs = ['cvb (paris_src_bipartite src_rounding %s true true %d %d %s)' % (cq(HINF), r_, c_, centries(coo)) for (r_, c_, coo) in pb]
-        vals = coq_eval('c07pb', IMPORTS, exprs, prelude=PRELUDE, shard=6)
+        vals = model_vals(ctx, 'c07pb', exprs, shard=6)
         for (r_, c_, coo), v in zip(pb, vals):
             r = impl.call('c07', 'fit', dict(algo='Paris', opts=dict(weights='degree', reorder=True), m=spec(r_, c_, coo),
                                         force_bipartite=True))
             ctx.traces += 1
             ctx.count('corr:Paris_bipartite', ('pb', r_, c_, coo), True)
+            if v is None:
+                continue
             exp = [frac_rows(x) for x in v[1]] if v[0] == 'Ok' else v
             got = [impl_frac_rows(r['ok'][k]['rows']) for k in ('full', 'row', 'col')] if 'ok' in r else r
             if exp != got:
@@ -771,9 +785,11 @@ def run(ctx, scratch):
             exprs.append('cvr (louvain_iteration_fit (tab_oracle %s) (tab_edge %s) %s %d)' % (tab_o, tab_e, cz(o2['depth']), n))
             meta.append(('LouvainIteration', fam, n, coo, o2))
             outs.append(r['ok'])
-        vals = coq_eval('c07lv', IMPORTS, exprs, prelude=PRELUDE, shard=40)
+        vals = model_vals(ctx, 'c07lv', exprs, shard=40)
         for (algo, fam, n, coo, opts), out, v in zip(meta, outs, vals):
             ctx.count('corr:%s:%s' % (algo, fam.split(':')[0]), (algo, n, coo, opts), True)
+            if v is None:
+                continue
             got = impl_frac_rows(out['dendrogram']['rows'])
             exp = frac_rows(v[1]) if v[0] == 'Ok' else v
             if exp != got:
